@@ -1800,8 +1800,8 @@ get_preprocessor_args(int c, string &args) {
         }
       }
     } else {
-      if (quote == 0 && (c == '"' || (c == '\'' && (args.empty() || !isalnum(args.back()))))) {
-        // (An apostrophe after a digit is a digit separator.)
+      if (quote == 0 && (c == '"' || (c == '\'' && !cpp_is_digit_separator(args, args.size())))) {
+        // (An apostrophe inside a number is a digit separator.)
         quote = c;
       } else if (c == quote) {
         quote = 0;
@@ -2680,7 +2680,7 @@ extract_manifest_args(const string &name, int num_args, int va_arg,
         arg = "";
         c = get();
 
-      } else if (c == '"' || c == '\'') {
+      } else if (c == '"' || (c == '\'' && !cpp_is_digit_separator(arg, arg.size()))) {
         // Quoted string or character.
         int quote_mark = c;
         arg += c;
